@@ -772,6 +772,49 @@ Theorem C05_pipeline_with_lattice_linked2 :
 Proof. exact LinkC04C06.pipeline_with_lattice_linked2. Qed.
 Print Assumptions C05_pipeline_with_lattice_linked2.
 
+(* the point located through the lattice, in the unified instance (no interface hypothesis) *)
+Theorem C05_located_through_lattice_linked2 :
+  forall fuel cf ifd ifg num den (s0 s1 s2 s3 : state (list Rdefinitions.R) wfentry) rs cells4 latkey lcl
+         (elems : list (@C06.Model.new_elem Rdefinitions.R)) keys,
+  fresh_ok _ wfentry s0 -> s_cache s0 = [] -> NoDup (map fst (s_cells s0)) ->
+  all_ref_free _ wfentry s0 -> C05.LinkC06.no_orig wfentry s0 ->
+  trcl_phase _ wfentry (@C06.Model.is_nil _) LinkC04C06.l_eqb LinkC04C06.l_tr_surf fuel (map fst (s_cells s0)) s0 = Ok s1 ->
+  dget latkey (s_cells s1) = Some lcl ->
+  Forall (fun e => C06.Model.is_nil (C06.Model.ne_trnsf e) = false) elems ->
+  C06.LinkC05.develop_state wfentry LinkC04C06.l_eqb LinkC04C06.l_tr_surf fuel latkey elems s1 = Ok (keys, s2) ->
+  fill_phase _ wfentry (@C06.Model.is_nil _) LinkC04C06.l_eqb LinkC04C06.l_tr_surf fuel cf ifd ifg (del_cell _ wfentry s2 latkey)
+    = Ok (rs, s3) ->
+  inline_cells _ fuel num den (s_cells s3) = Ok cells4 ->
+  let sd := del_cell _ wfentry s2 latkey in
+  let du := by_universe (s_cells sd) in
+  let sf := set_cells _ wfentry s3 cells4 in
+  forall key kcl U e ke ecl p,
+  In key (fill_keys (s_cells sd)) ->
+  dget key (s_cells sd) = Some kcl -> c_fill kcl = Some U ->
+  In (e, ke) (combine elems keys) ->
+  dget ke (s_cells sd) = Some ecl -> c_univ ecl = U ->
+  Den _ wfentry _ LinkC04C06.l_sense sd p (c_geom kcl) true ->
+  Den _ wfentry _ LinkC04C06.l_sense s1 (LinkC04C06.l_inv (C06.Model.ne_trnsf e) (frame _ _ (@C06.Model.is_nil _) LinkC04C06.l_inv kcl p))
+      (TRef latkey) true ->
+  exists ks, In ks rs /\
+  (C06.Model.ne_fill e = None ->
+     exists k ncl, In k ks /\ dget k (s_cells sf) = Some ncl /\ Den _ wfentry _ LinkC04C06.l_sense sf p (TRef k) true /\
+       c_fill ncl = None /\ c_orig ncl = prov [key; ke] /\
+       c_mat ncl = c_mat lcl /\ c_rho ncl = c_rho lcl) /\
+  (forall u c ch, C06.Model.ne_fill e = Some u -> C06.Model.is_nil (C06.Model.ne_filltr e) = false ->
+     In c (du_get u du) ->
+     Located _ wfentry _ (@C06.Model.is_nil _) LinkC04C06.l_inv LinkC04C06.l_sense sd du c
+             (LinkC04C06.l_inv (C06.Model.ne_filltr e) (frame _ _ (@C06.Model.is_nil _) LinkC04C06.l_inv kcl p)) ch ->
+     exists k ncl lfl, In k ks /\ dget k (s_cells sf) = Some ncl /\
+       Den _ wfentry _ LinkC04C06.l_sense sf p (TRef k) true /\
+       c_fill ncl = None /\ c_orig ncl = prov (key :: ke :: ch) /\
+       dget (last ch 0) (s_cells sd) = Some lfl /\ c_mat ncl = c_mat lfl /\ c_rho ncl = c_rho lfl).
+Proof.
+  exact (C05.LinkC06.located_through_lattice wfentry LinkC04C06.l_eqb LinkC04C06.l_tr_surf
+           LinkC04C06.l_inv LinkC04C06.l_sense LinkC04C06.l_sense_law LinkC04C06.l_key_law).
+Qed.
+Print Assumptions C05_located_through_lattice_linked2.
+
 (* LAT=1 (C06) and LAT=2 (C07) alike: every element list develop_lattice_with returns - with the
    square base vectors or with C07's hexagonal ones - satisfies the hypothesis "no element has an
    empty transformation" of the chain theorems above *)
